@@ -25,7 +25,7 @@ META = {
     "bounds": {
         "quick": "dense: 1 reaction x 3 keys, 12 coefficients each symbolic in 0..2; 2 reactions x 2 keys, 16 coefficients "
                  "symbolic in 0..2 (+CSTR, array route, permutation); structural: every presence pattern of 2 keys in the four "
-                 "stoichiometry dicts (256) with symbolic coefficients 1..3; seeded 3-key two-reaction patterns",
+                 "stoichiometry dicts (256) with symbolic coefficients 1..3; seeded 3-key two-reaction patterns; three large structures with unit coefficients (one species in 9 / 17 reactions, 26 reactions one of them with inactive parts)",
         "thorough": "dense: 1 reaction x 3 keys coefficients 0..3; 2 reactions x 3 keys 0..2; structural: all 4096 patterns of "
                     "3 keys; 400 seeded two-/three-reaction patterns over 4 keys",
     },
